@@ -11,16 +11,17 @@ reg('C01', 'static analysis: constant-table comparison (LABEL/ALLOWED vs lifecyc
 
 reg('C04', 'static analysis: must-fact dataflow on kill()\'s guard ladder; provenance of the deferred-kill wiring (action, cookie, alias, message); '
     'CFG must-pass-through for the end-of-step dispatch; alias discipline at every site that replaces/cancels the interrupt action; '
-    'future typestate (unguarded multi-writer, external canceller)',
+    'future typestate (unguarded multi-writer, external canceller); kill-on-cancel registration at every creation/restoration of the process future',
     'For all schedules: which sites may cancel a pending kill, whether kill()\'s direct/deferred branches hold their guards in one '
     'interleaving-free region, whether the kill text and KILLED label reach the state, whether the cancel hook is wired. Liveness over all '
     'programs is not decided.', NOTE)
 reg('C06', 'static analysis: future typestate -- every writer role of the waiting future classified fresh/guarded/guarded-drop/unguarded by '
-    'must-facts; forwarding of resume values; registration of completion callbacks',
+    'must-facts; decision table "while pending every path of resume(v) hands v to the future"; nullable-location rule (every direct use of a lazily created future knows it exists); '
+    'pause-gate / pause-ladder / play pairing obligations shared with C05; registration of completion callbacks',
     'For all interleavings of resume / interrupt / awaitable completion: a writer that raises or drops when it comes second exists iff a site is '
     'unguarded or guarded-drop. Liveness beyond these conflicts is not decided.', NOTE)
 reg('C13', 'static analysis: dispatch-ladder exhaustiveness over Command subclasses, forwarding completeness (every captured constructor field '
-    'reaches the next state with the right star-kind), save/load key symmetry of the state payloads',
+    'reaches the next state with the right star-kind), save/load key symmetry of the state payloads, decision table for resume-value delivery, copy-at-save provenance of the pending call\'s arguments',
     'For all argument choices: a captured field that is never forwarded, a command without a branch, a wrong constant label or a payload that is '
     'not persisted is found from the shape of the code.', NOTE)
 reg('C20', 'static analysis: exactly-once typestate by enumeration of every acyclic CFG path of each adapter callback; run-once guard facts',
@@ -29,7 +30,7 @@ reg('C20', 'static analysis: exactly-once typestate by enumeration of every acyc
 
 reg('C02', 'static analysis: dispatch-ladder exhaustiveness (entering/entered hooks per state), writer ownership of the process future, CFG '
     'exactly-once on every non-raising path (future resolution, terminal listener event, close), provenance of reported values, '
-    'call-graph reachability of a resolver for every future step() blocks on',
+    'call-graph reachability of a resolver for every future step() blocks on, per-item handler isolation of the cleanups',
     'For all schedules: who may resolve the process future and with what, one terminal notification per path, on_terminated iff terminal, cleanups '
     'at most once, and every way into a terminal state releases the stepping task. Agreement of the views at every point is otherwise not decided.', NOTE)
 reg('C05', 'static analysis: CFG dominance (pause gate before the state\'s execute), must-fact guard ladder of pause(), must-pass-through of the '
@@ -39,24 +40,24 @@ reg('C05', 'static analysis: CFG dominance (pause gate before the state\'s execu
 
 reg('C07', 'static analysis: save/load symmetry -- reference table of persisted fields vs auto_persist sets along the MRO, key<->attribute binding on both '
     'sides by reaching definitions, key agreement per class, load-context reads supplied or guarded, super() on all CFG paths, defaults-before-restore '
-    'ordering, copy-at-save provenance, YAML tag agreement',
+    'ordering, copy-at-save provenance, YAML tag agreement, call-graph effect rule (no user callable reachable below any load_instance_state / recreate_*), provenance of the class identifier',
     'For every process/workchain shape: a field that stops being persisted, a key written but never read (or read into another attribute), an override that '
     'skips super(), a default that clobbers a restored member or an aliasing save is found from the code. Equality of the two bundles is not decided.', NOTE)
 reg('C08', 'static analysis: stepper persistence table, sibling agreement of create_stepper/recreate_stepper (class, child selector, load-context keywords), '
-    'dominance of the position restore over its use, continuation-by-name symmetry',
+    'dominance of the position restore over its use, continuation-by-name symmetry; persisted-field table, load-determinism effect rule and snapshot-isolation provenance shared with C07 / C14',
     'For every outline and crash point: the interpreter position and live child are persisted under matching keys, the child restored is the one the running '
     'stepper would create, continuations are re-bound by name. That the resumed run equals the reference run is not decided.', NOTE)
 reg('C19', 'static analysis: provenance of the per-class auto_persist set, member-kind tag table (save_members vs _get_value), loader-precedence must-facts, '
-    'writer/reader key-path agreement of the meta helpers, error-type discipline of load_object, dispatch over future states',
+    'CFG must-pass (every return either hands back a context that carries a loader or has consulted the saved state), writer/reader key-path agreement of the meta helpers, error-type discipline of load_object, dispatch over future states',
     'For every Savable shape and loader configuration: tags written are the tags reversed, the loader recorded is found and used as an instance, precedence is '
     'context > saved state > default, unknown classes are ValueError, futures have a branch per state. Value round trip through deepcopy is not decided.', NOTE)
 
 reg('C03', 'static analysis: inter-procedural exception-containment analysis over the resolved call graph (first containing handler / capture_exceptions '
     'on every upward call chain from every uncontrolled call site, with sink classification and task-boundary roots), finally-pairing of '
-    'flags, must-facts on the construction re-raise, provenance of the EXCEPTED state payload',
+    'flags, must-facts on the construction re-raise, provenance of the EXCEPTED state payload, future typestate of the EXCEPTED entry (shared with C02)',
     'For every hook / user function and every occurrence: no exception raised by uncontrolled code can reach a coroutine or done-callback plumpy hands to the '
     'loop, each kind of user code is caught first by the sink the property names, flags are reset on every exit, failure states carry exactly the caught exception.', NOTE)
-reg('C18', 'static analysis: push/pop pairing of the process-scope context manager on its CFG, ownership of the context variable, scope reachability '
+reg('C18', 'static analysis: push/restore pairing on the CFG of EVERY function that installs a process stack (restore on every exit, exceptional ones included; copy-on-push, copy-on-pop), ownership of the context variable, scope reachability '
     'over upward call chains from every uncontrolled call site that runs process code',
     'For every interleaving: which user code of a process can run without a "with _process_scope()" on its call chain is a call-graph fact. Assumes per-task '
     'copies of context variables.', NOTE)
@@ -68,7 +69,7 @@ reg('C09', 'static analysis: CFG path rules on the outline interpreter (first-tr
     'return_ cannot be swallowed below _do_step, a block advances by exactly one finished instruction, a non-None value stops the chain. It does NOT decide the '
     'order of calls over all nested outlines (interpreter correctness).', NOTE)
 reg('C10', 'static analysis: must-facts for the barrier guard (wake-up control-dependent on the awaiting map being empty after the pop), CFG must-pass rules '
-    'for registration and context writes, exception-containment trace of an awaited failure',
+    'for registration and context writes, hand-up rule for nested steppers (the child\'s value reaches _do_step unchanged), exception-containment trace of an awaited failure',
     'For every number of awaited items and completion order: the wake-up site is reachable only under "nothing awaited any more", registrations reach the WAITING '
     'state, a failed awaitable becomes the EXCEPTED state. The unguarded future writes are C06\'s findings.', NOTE)
 
